@@ -65,6 +65,21 @@ def templates():
     Pe = [('n', 'int', None), ('acc', 'int', None), ('bonus', 'int', I(1000))]
     t.append(("default-alternating", True, ('fn', 'tde', Pe, 'int', [], C('if', base, V('acc'), C('if', C('eq', C('mod', V('n'), I(2)), I(0)), rece, recf))), 'tde',
               lambda n: C('tde', I(n), I(0))))
+    # error-valued arguments of a tail self-call: an ordinary call with an erroring argument IS that error (leftmost
+    # first), also when the next iteration would return without ever touching that parameter
+    E = lambda m: C('err_int', ('s', m))
+    t.append(("error-arg-unused", True, ('fn', 'f', P, 'int', [], C('if', base, I(7), C('f', C('sub', V('n'), I(1)), E('boom'))))))
+    t.append(("error-arg-unused-nontail", False, ('fn', 'f', P, 'int', [], C('if', base, I(7), C('add', I(0), C('f', C('sub', V('n'), I(1)), E('boom')))))))
+    t.append(("error-arg-first", True, ('fn', 'f', P, 'int', [], C('if', C('eq', V('acc'), I(99)), I(7), C('f', E('e1'), I(99))))))
+    t.append(("error-arg-at-iteration-3", True, ('fn', 'f', P, 'int', [],
+              C('if', base, I(7), C('f', C('sub', V('n'), I(1)), C('if', C('eq', V('n'), I(3)), E('at3'), C('add', V('acc'), V('n'))))))))
+    P3 = [('n', 'int', None), ('acc', 'int', None), ('k', 'int', None)]
+    t.append(("error-args-leftmost", True, ('fn', 'te', P3, 'int', [],
+              C('if', C('eq', V('k'), I(0)), I(7), C('te', E('L'), E('R'), C('sub', V('k'), I(1))))), 'te',
+              lambda n: C('te', I(1), I(2), I(n))))
+    t.append(("error-arg-defaulted", True, ('fn', 'tdx', Pd, 'int', [],
+              C('if', base, I(7), C('tdx', C('sub', V('n'), I(1)), V('acc'), E('dflt')))), 'tdx',
+              lambda n: C('tdx', I(n), I(0))))
     return t
 
 
@@ -155,7 +170,7 @@ def run(chk):
         extra.append(Case(ds + [build(tm, n)[-1]], "mixed", printer_rng=rng,
                           depth=rng.choice([None, None, 6, 30]), rec=rng.choice([None, None, 3, 50])))
     three_way(chk, extra, "c07", nontrivial=lambda c, ev: ev.max_rec > 0)
-    return chk.finish(rule="recursive templates with the self-call in 17 syntactic positions / parameter shapes (8 tail, 9 non-tail, incl. defaulted parameters omitted by the tail call) x iteration counts 0..20000 (thorough 100000) "
+    return chk.finish(rule="recursive templates with the self-call in 23 syntactic positions / parameter shapes (13 tail, 10 non-tail, incl. defaulted parameters omitted by the tail call and error-valued arguments the next iteration never reads) x iteration counts 0..20000 (thorough 100000) "
                            "x {no limit, depth limit 8, recursion limits 5/n/n-1, call limit 3}, plus random programs with such helpers mixed in; "
                            "non-trivial = at least one tail iteration or call depth > 2; distinct by source text + limits")
 
